@@ -25,7 +25,7 @@ const c10OncePkgPath = "sync"
 // c10StopCloses lists the close(ch) calls of the package whose channel is the wheel's stopChannel.
 func c10StopCloses(p *core.Prog, pkg string) []ssa.CallInstruction {
 	var out []ssa.CallInstruction
-	for _, f := range p.PkgFuncs(pkg) {
+	for _, f := range c10Funcs(p, pkg) {
 		for _, c := range core.Calls(f, core.CallTo("builtin:close")) {
 			if a := core.Args(c); len(a) == 1 && chanField(a[0]) == "stopChannel" {
 				out = append(out, c)
@@ -122,7 +122,7 @@ func c10ConstKey(v ssa.Value) (string, bool) {
 // TimingWheel field tf on a wheel that is not under construction in the same function.
 func c10FieldWrites(p *core.Prog, pkg, tf string, allowed func(ssa.Instruction) bool) []ssa.Instruction {
 	var out []ssa.Instruction
-	for _, f := range p.PkgFuncs(pkg) {
+	for _, f := range c10Funcs(p, pkg) {
 		for _, b := range f.Blocks {
 			for _, in := range b.Instrs {
 				fa, ok := in.(*ssa.FieldAddr)
@@ -191,7 +191,7 @@ func c10Round9(r *core.Run, pkg string) {
 						o.Unres("%s: receiver of Do is not a sync.Once", p.InstrPos(d))
 					case ow == nil:
 						o.Fail(p.InstrPos(d), "the stop channel is closed under a sync.Once that is not a field of the wheel (%s): a Once shared by all wheels lets only the first wheel ever stop, a Once made per call guards nothing – the next Stop closes the closed channel and panics", core.Describe(core.Forward(recv)))
-					case !c10Same(o, p, d, ow, wheel) && !c10BoundSame(d, ow):
+					case !c10Same(o, p, d, ow, wheel) && !c10BoundSame(d, ow, wheel):
 						o.Fail(p.InstrPos(d), "the sync.Once and the stop channel closed under it belong to different wheels")
 					default:
 						tf := core.FieldAddrName(c10FieldAddrOf(recv))
@@ -230,15 +230,32 @@ func c10FieldAddrOf(v ssa.Value) *ssa.FieldAddr {
 	return fa
 }
 
-// c10BoundSame: once.Do(w.m) — the close sits in method m, whose wheel is its receiver; the
-// receiver the method value was bound to must be the wheel the Once hangs off.
-func c10BoundSame(d ssa.CallInstruction, onceWheel ssa.Value) bool {
+// c10BoundSame: once.Do(w.m) — the close sits in method m and its wheel is m's receiver; the
+// receiver the method value was bound to must be the wheel the Once hangs off. The method value
+// is a synthetic wrapper that calls m with the captured receiver or — in a program variant — has
+// m's body inlined over the captured receiver; closeWheel is the wheel whose channel is closed
+// (m's receiver parameter, resp. the wrapper's only free variable).
+func c10BoundSame(d ssa.CallInstruction, onceWheel, closeWheel ssa.Value) bool {
 	a := core.Args(d)
 	mc, ok := core.Forward(a[len(a)-1]).(*ssa.MakeClosure)
 	if !ok || len(mc.Bindings) != 1 {
 		return false
 	}
-	if fn, ok := mc.Fn.(*ssa.Function); !ok || boundTarget(fn) == nil {
+	fn, ok := mc.Fn.(*ssa.Function)
+	if !ok {
+		return false
+	}
+	cw := core.Strip(core.Forward(closeWheel))
+	switch m := boundTarget(fn); {
+	case m != nil:
+		if len(m.Params) == 0 || m.Signature.Recv() == nil || c10WheelRoot(closeWheel) != ssa.Value(m.Params[0]) {
+			return false
+		}
+	case inlinedBoundWrapper(fn):
+		if len(fn.FreeVars) != 1 || cw != ssa.Value(fn.FreeVars[0]) {
+			return false
+		}
+	default:
 		return false
 	}
 	same, _ := c10SameWheel(mc.Bindings[0], onceWheel)
@@ -250,7 +267,7 @@ func c10BoundSame(d ssa.CallInstruction, onceWheel ssa.Value) bool {
 func c10Same(o *core.O, p *core.Prog, at ssa.Instruction, a, b ssa.Value) bool {
 	same, known := c10SameWheel(a, b)
 	if !known {
-		if c, isCall := at.(ssa.CallInstruction); isCall && c10BoundSame(c, a) {
+		if c, isCall := at.(ssa.CallInstruction); isCall && c10BoundSame(c, a, b) {
 			return true
 		}
 		o.Unres("%s: cannot tell whether %s and %s are the same wheel", p.InstrPos(at), core.Describe(a), core.Describe(b))
@@ -263,7 +280,7 @@ func c10Same(o *core.O, p *core.Prog, at ssa.Instruction, a, b ssa.Value) bool {
 // sync.Once.Do: a direct call, go, defer, or the value handed elsewhere.
 func c10OtherUse(p *core.Prog, pkg string, f *ssa.Function) ssa.Instruction {
 	isDo := core.CallTo("(*sync.Once).Do")
-	for _, g := range p.PkgFuncs(pkg) {
+	for _, g := range c10Funcs(p, pkg) {
 		for _, b := range g.Blocks {
 			for _, in := range b.Instrs {
 				if c := core.AsCall(in); c != nil && !c.Common().IsInvoke() {
@@ -452,7 +469,7 @@ func c10LockGuardedField(p *core.Prog, pkg, tf string) bool {
 	}
 	var common map[string]bool
 	n := 0
-	for _, f := range p.PkgFuncs(pkg) {
+	for _, f := range c10Funcs(p, pkg) {
 		for _, b := range f.Blocks {
 			for _, in := range b.Instrs {
 				fa, ok := in.(*ssa.FieldAddr)
